@@ -673,10 +673,18 @@ Qed.
 Lemma RV_last_edep nw t : RV nw (t_nodes t) -> edep nw (last_node t) = true.
 Proof. intros (_ & _ & _ & E & _). rewrite RenderFacts3.RV_last. exact E. Qed.
 
-Theorem end_to_end : stmt_end_to_end.
+(* the statement with the weaker hypothesis on the depot permutation that [load] actually needs (LoadFacts.perm_ok:
+   only read when the instance has no depots, and then at most one entry per location) *)
+Theorem end_to_end_perm_ok :
+  forall i perm nw,
+    valid_instance_b i = true -> inst_unsigned i -> perm_ok i perm -> load i perm = Ok nw ->
+    forall tours final,
+      tours_are_paths nw tours -> tours_known nw tours -> pipeline_result nw tours final ->
+      exists out, render nw final = Ok out /\
+        check_C01 nw out = [] /\ check_C02 nw out = [] /\ check_C03 nw out = [] /\
+        check_C04 nw out = [] /\ check_C05 nw out = [].
 Proof.
-  intros i perm nw V U LP LD tours final TP TK PR.
-  pose proof (length_perm_ok i perm LP) as PO.
+  intros i perm nw V U PO LD tours final TP TK PR.
   pose proof (load_net_fine i perm nw V PO LD) as NF. pose proof NF as (OK & ML & ND).
   pose proof OK as OK'. unfold net_ok_b in OK'. apply andb_true_iff in OK'. destruct OK' as [WF DP].
   destruct (LoadFacts.load_wf_partial i perm nw V PO LD) as (_ & _ & DF).
@@ -743,8 +751,15 @@ Proof.
   - exact (render_C05 nw NF final out TOf LOf TRf TAf RE).
 Qed.
 
+Theorem end_to_end : stmt_end_to_end.
+Proof.
+  intros i perm nw V U LP LD tours final TP TK PR.
+  exact (end_to_end_perm_ok i perm nw V U (length_perm_ok i perm LP) LD tours final TP TK PR).
+Qed.
+
 Print Assumptions load_dh_finite.
 Print Assumptions load_depot_lists.
 Print Assumptions pipeline_first_listed.
 Print Assumptions render_C02_depots.
 Print Assumptions end_to_end.
+Print Assumptions end_to_end_perm_ok.
